@@ -216,6 +216,8 @@ class Lower:
             progress = False
             for it in list(pending_inst):
                 if elems_ready(it[2:]):
+                    if it[0] in ('DECL_SEQ', 'DECL_BT', 'DECL_UMAP'):
+                        res.append('#ifndef SEQ_INV_%s\n#define SEQ_INV_%s(p) 1\n#endif' % (it[1], it[1]))
                     res.append('%s(%s)' % (it[0], ', '.join(it[1:])))
                     prefix = {'DECL_OPT': 'opt_', 'DECL_SEQ': 'seq_', 'DECL_PAIR': 'pair_', 'DECL_UMAP': 'umap_', 'DECL_BT': 'bt_'}[it[0]]
                     placed.add(prefix + it[1])
@@ -1294,6 +1296,7 @@ class Lower:
             out.append('%s    %s *%s = %s__at(%s, %s);' % (ind, ect, lname, m, rp, i))
         else:
             out.append('%s    %s %s = *%s__at(%s, %s);' % (ind, ect, lname, m, rp, i))
+        self.cur.locals.append((i, 'unsigned long'))
         self.cur.locals.append((lname, ect))
         self.cur.libcalls.append('%s.range-for' % rcls)
         out.extend(self.block(body, ind + '    '))
